@@ -557,6 +557,7 @@ INNER = [
     "(select a from t1) union (select a from t2)", "(select a from t1 where b in (1, 2)) union all (select a from t2 where c = f(1))", "(select a from t)", "((select a from t))",
     "select a from t where b in (select c from u)", "select (a + 1) * (b - 2) from t", "select a from (select a from t) as x",
     "select a\n--\n, b\nfrom t", "select a -- x\n, b from t", "select a --\n from t", "select a /* c */ , /* d\n e */ b from t",
+    "select 'a\nb'||c as d from t", "select 'a\nb',c from t", "select \"a\nb\"||c as d from t", "select 'a\n\nb'=c , d from t",
     "retrain p1;\n retrain p2", "select 'a;\nb' from t", "select 'x  \ny' from t", "select now() from t", "select f( ) , g(()) from t", "select a from t ;\n",
 ]
 
@@ -625,8 +626,40 @@ def ignore_obligations(rep):
             rep.failed(f'C16.lex.ignore.{dname}.{name}', 'fst', text, function=fn_, clause=clause,
                        replay={'input': f'select a\n{w}, b\nfrom t' if w else None, 'dialect': dname, 'fires': bool(w), 'observed': text, 'expected': 'only the comment is dropped'})
 
+def lineno_obligations(rep):
+    """tokens_to_string infers line breaks from token.lineno (C16.tts.*: a change of lineno stands for exactly the newline characters between two
+    tokens). That holds only if the lexer advances its line counter for newline characters BETWEEN tokens and nowhere else: no token function that
+    returns a token may write self.lineno (a multi-line string literal keeps the line number of its first line)."""
+    import ast as _ast
+    from vlib import lrtab as _lr
+    for dname in _lr.DIALECTS:
+        d = _lr.load(dname)
+        L = d.Lexer
+        fn_ = f'{d.lexer_module}:{d.lexer_class_name}'
+        bad = []
+        for name, f in sorted(L._token_funcs.items()):
+            try:
+                fds = repo.find_functions(f.__module__, f.__qualname__)
+            except Exception:
+                continue
+            for fd in fds:
+                returns_token = any(isinstance(n, _ast.Return) and n.value is not None for n in _ast.walk(fd))
+                writes = [n for n in _ast.walk(fd) if isinstance(n, (_ast.Assign, _ast.AugAssign)) and any(
+                    isinstance(t, _ast.Attribute) and t.attr == 'lineno' for t in (n.targets if isinstance(n, _ast.Assign) else [n.target]))]
+                if returns_token and writes:
+                    bad.append((name, _ast.unparse(writes[0])))
+        oid = f'C16.lex.lineno.{dname}'
+        clause = 'only rules that drop their text (newlines between tokens) advance the line counter; token functions that return a token leave lineno alone'
+        if bad:
+            rep.failed(oid, 'frames', f'token function {bad[0][0]} writes the line counter (`{bad[0][1]}`): the line number no longer counts the newlines BETWEEN tokens, which tokens_to_string relies on',
+                       function=fn_, clause=clause, replay=replay_inner("select 'Dear customer,\nthank you'||name AS greeting, id from customers"))
+        else:
+            rep.proved(oid, 'frames', f'{len(L._token_funcs)} token functions; none that returns a token writes lineno', function=fn_, clause=clause)
+
+
 def check(rep, tier):
     ignore_obligations(rep)
+    lineno_obligations(rep)
     from vlib import statecensus
     statecensus.obligations(rep, 'C16', 'parser')
     rep.dropped = 'lexer actions extracted by vlib/codec.py; tokens_to_string loop body and parser actions read with ast.parse (decorators give the rules)'
